@@ -212,7 +212,7 @@ class Dendrogram(object):
             # verification hook: record the order in which pixels are processed
             self._verif_order = []
 
-        for i in np.argsort(data_values)[::-1]:
+        for i in np.argsort(data_values, kind='stable')[::-1]:
 
             def next_idx():
                 return i + 1
